@@ -43,6 +43,7 @@ enum DecKind : int {
   D_JUMP = 3,     // arg = ns to jump the clock forward
   D_CHOOSE = 4,   // arg = value returned by sim::choose
   D_EARLY = 5,    // sleep returns early
+  D_PICK = 6,     // which waiter a wake/signal picks: arg = index among the waiters, arg2 = n-th pick of this call
 };
 struct Dec {
   int tid;
